@@ -35,16 +35,23 @@ func lexWant(kind string, signs []int) bool {
 }
 
 // checkLex walks fn(x, y) and compares its verdict on every sign vector with the lexicographic order.
-func checkLex(r *Report, p *Program, rule, construct string, fn *ssa.Function, kind string, comps []string, leafOf func(comp, operand string) string, inlineAll bool) {
+func checkLex(r *Report, p *Program, rule, construct string, fn *ssa.Function, kind string, comps []string, leafOf func(comp, operand string) []string, inlineAll bool) {
 	if fn == nil {
 		r.Fatal(rule, construct, "function not found")
 		return
 	}
 	w := NewWalker(p)
 	w.ForceBool = true
+	// helpers of the package and the pure generic comparison helpers of the standard library (cmp.Compare,
+	// cmp.Or: a few comparisons each) are part of the function under test
+	tp := p.SSAPkg("types")
 	w.Inline = func(f *ssa.Function, d int) bool {
-		return inlineAll && f.Pkg == p.SSAPkg("types")
+		if pk := pkgOf(f); pk != nil && pk.Pkg.Path() == "cmp" {
+			return true
+		}
+		return pkgOf(f) == tp && f != fn
 	}
+	w.MaxDepth = 6
 	args := []*Term{{Op: "param", Name: "x", Typ: fn.Params[0].Type()}, {Op: "param", Name: "y", Typ: fn.Params[1].Type()}}
 	paths := w.Walk(fn, args, nil)
 	k := len(comps)
@@ -77,13 +84,16 @@ func checkLex(r *Report, p *Program, rule, construct string, fn *ssa.Function, k
 			ab := strings.SplitN(key, "\x00", 2)
 			matched := false
 			for i, c := range comps {
-				lx, ly := leafOf(c, "x"), leafOf(c, "y")
-				if ab[0] == lx && ab[1] == ly {
-					allowed[i] &= bits
-					matched = true
-				} else if ab[0] == ly && ab[1] == lx {
-					allowed[i] &= relFlip(bits)
-					matched = true
+				lxs, lys := leafOf(c, "x"), leafOf(c, "y")
+				for j := range lxs {
+					lx, ly := lxs[j], lys[j]
+					if ab[0] == lx && ab[1] == ly {
+						allowed[i] &= bits
+						matched = true
+					} else if ab[0] == ly && ab[1] == lx {
+						allowed[i] &= relFlip(bits)
+						matched = true
+					}
 				}
 			}
 			if !matched {
@@ -134,11 +144,14 @@ func RuleOrder(r *Report, p *Program, tier string) {
 	r.Rule("O3", "DateTime.Before compares the whole-second timestamps of both operands with <", 1)
 	r.Rule("O1v", "one obligation per (Date comparison, sign vector of (year, month, day))", 81)
 	r.Rule("O2v", "one obligation per (HHmm comparison, sign vector of (hours, minutes))", 27)
-	dateLeaf := func(c, o string) string { return "(time.Time)." + c + "(" + o + ")" }
+	// (time.Time).Date() returns (year, month, day): the same components as the three accessors
+	dateLeaf := func(c, o string) []string {
+		return []string{"(time.Time)." + c + "(" + o + ")", "(time.Time).Date(" + o + ")#" + map[string]string{"Year": "0", "Month": "1", "Day": "2"}[c]}
+	}
 	for _, k := range []struct{ m, kind string }{{"Before", "before"}, {"After", "after"}, {"Equals", "equals"}} {
 		checkLex(r, p, "O1", "types.Date."+k.m, p.Func("types", "Date."+k.m), k.kind, []string{"Year", "Month", "Day"}, dateLeaf, false)
 	}
-	hhLeaf := func(c, o string) string { return o + "." + c }
+	hhLeaf := func(c, o string) []string { return []string{o + "." + c} }
 	for _, k := range []struct{ m, kind string }{{"Before", "before"}, {"After", "after"}, {"Equals", "equals"}} {
 		checkLex(r, p, "O2", "types.HHmm."+k.m, p.Func("types", "HHmm."+k.m), k.kind, []string{"hours", "minutes"}, hhLeaf, true)
 	}
@@ -189,21 +202,26 @@ func RuleOrder(r *Report, p *Program, tier string) {
 		r.Fatal("O3", "types.DateTime.Before", "not found")
 		return
 	}
-	w := NewWalker(p)
-	w.Inline = func(f *ssa.Function, d int) bool { return false }
-	paths := w.Walk(fn, []*Term{{Op: "param", Name: "x", Typ: fn.Params[0].Type()}, {Op: "param", Name: "y", Typ: fn.Params[1].Type()}}, nil)
-	ok := len(paths) == 1 && len(paths[0].Results) == 1
-	detail := ""
-	if ok {
-		res := paths[0].Results[0]
-		want := "(((time.Time).UnixMilli(x)/1000)<((time.Time).UnixMilli(y)/1000))"
-		alt := "((time.Time).Unix(x)<(time.Time).Unix(y))"
-		if res.String() != want && res.String() != alt {
-			ok = false
-			detail = "verdict is " + res.String() + ", expected the whole-second timestamps of both operands compared with <"
+	// the whole-second timestamp of an operand, in the forms package time offers; both operands must use the same one
+	secLeaf := func(c, o string) []string {
+		return []string{
+			"((time.Time).UnixMilli(" + o + ")/1000)",
+			"(time.Time).Unix(" + o + ")",
+			"((time.Time).UnixMicro(" + o + ")/1000000)",
+			"((time.Time).UnixNano(" + o + ")/1000000000)",
 		}
-	} else {
-		detail = fmt.Sprintf("%d paths", len(paths))
+	}
+	tmp := NewReport(r.Property, r.Tier)
+	checkLex(tmp, p, "O3", "types.DateTime.Before", fn, "before", []string{"sec"}, secLeaf, true)
+	ok, detail := true, ""
+	for _, o := range tmp.Obs {
+		if o.Rule == "O3" && o.Status != "ok" {
+			ok = false
+			detail = "expected the whole-second timestamps of both operands compared with <: " + o.Detail
+		}
+	}
+	for _, f := range tmp.fatal {
+		ok, detail = false, f
 	}
 	r.Check(ok, "O3", "types.DateTime.Before", p.Pos(fn.Pos()), "x.sec < y.sec", detail)
 }
